@@ -611,6 +611,7 @@ func ruleBridgeIDs(c *chk.Ctx) {
 	c.Check(has(errConds, "Error!=nil"), "PAIR.ids", f, "invalid members answered with their own error", errApp.Pos(), "the member's own error object is appended on the member.Error != nil edge", "error objects are appended on an edge other than member.Error != nil")
 	// D2: the id append predicate is the negation of the Notify predicate, on the same member, same iteration
 	var notify *ssa.BinOp
+	notifyNegated := false
 	c.P.ExtInstrs(f, func(ins ssa.Instruction) {
 		st, ok := ins.(*ssa.Store)
 		if !ok {
@@ -618,8 +619,21 @@ func ruleBridgeIDs(c *chk.Ctx) {
 		}
 		if fa, ok := st.Addr.(*ssa.FieldAddr); ok && ir.FieldVar(fa).Name() == "Notify" {
 			notify, _ = st.Val.(*ssa.BinOp)
+			// Notify: !isCall with isCall := id != ""
+			if u, isU := st.Val.(*ssa.UnOp); isU && u.Op == token.NOT {
+				if bo, isBO := ir.NormCell(u.X).(*ssa.BinOp); isBO && (bo.Op == token.EQL || bo.Op == token.NEQ) {
+					notify, notifyNegated = bo, true
+				}
+			}
 		}
 	})
+	notifyOp := token.ILLEGAL
+	if notify != nil {
+		notifyOp = notify.Op
+		if notifyNegated {
+			notifyOp = map[token.Token]token.Token{token.EQL: token.NEQ, token.NEQ: token.EQL}[notify.Op]
+		}
+	}
 	okLock := false
 	why := "Notify is not computed by a comparison"
 	if notify != nil {
@@ -636,8 +650,8 @@ func ruleBridgeIDs(c *chk.Ctx) {
 				continue
 			}
 			// notify: ID == ""   ;  id append: ID != "" true (or ID == "" false)
-			negated := (notify.Op == token.EQL && ((bo.Op == token.NEQ && cd.Truth) || (bo.Op == token.EQL && !cd.Truth))) ||
-				(notify.Op == token.NEQ && ((bo.Op == token.EQL && cd.Truth) || (bo.Op == token.NEQ && !cd.Truth)))
+			negated := (notifyOp == token.EQL && ((bo.Op == token.NEQ && cd.Truth) || (bo.Op == token.EQL && !cd.Truth))) ||
+				(notifyOp == token.NEQ && ((bo.Op == token.EQL && cd.Truth) || (bo.Op == token.NEQ && !cd.Truth)))
 			sameField := false
 			if u1, ok := notify.X.(*ssa.UnOp); ok {
 				if u2, ok := bo.X.(*ssa.UnOp); ok {
@@ -779,6 +793,22 @@ func ruleBridgeIDs(c *chk.Ctx) {
 			}
 			// or the body argument is selected on the len == 1 edge
 			for _, a := range sw.ci.Common().Args {
+				// (or by a private helper that returns the body: one of its returns is on that edge)
+				bv := ir.NormCell(a)
+				if mi, isMI := bv.(*ssa.MakeInterface); isMI {
+					bv = mi.X
+				}
+				if hc, isCall := bv.(*ssa.Call); isCall {
+					if h := hc.Call.StaticCallee(); h != nil && c.P.InRepo[h] && !ir.Exported(h) && len(ir.Returns(h)) >= 2 {
+						for _, r := range ir.Returns(h) {
+							for _, cd := range ir.CondsAt(r.Block()) {
+								if describeHTTPCond(cd) == "len==1" {
+									okShape = true
+								}
+							}
+						}
+					}
+				}
 				phi, ok := ir.NormCell(a).(*ssa.Phi)
 				if !ok {
 					continue
@@ -1112,7 +1142,7 @@ func ruleBodiesClosed(c *chk.Ctx) {
 	for _, f := range pkgFuncs(c, c.M.JhttpPkg) {
 		ir.Instrs(f, func(ins ssa.Instruction) {
 			if x, ok := ins.(*ssa.Next); ok {
-				if rg, ok := x.Iter.(*ssa.Range); ok && strings.HasSuffix(rg.X.Type().String(), "jhttp.response") {
+				if rg, ok := x.Iter.(*ssa.Range); ok && isRespChan(rg.X.Type()) {
 					recvFuncs[f] = true
 				}
 			}
@@ -1286,8 +1316,11 @@ func ruleLoop(c *chk.Ctx) {
 	okArgs := ir.NormCell(finish.Call.Value) == ir.NormCell(assigner.Call.Value) && ir.IsExtractOf(ir.NormCell(finish.Call.Args[0]), assigner, 0) && ir.NormCell(finish.Call.Args[1]) == ssa.Value(wait)
 	// the server waited on is the one started with that assigner on the accepted channel
 	okSrv := false
-	if nsCall, ok := start.Call.Args[0].(*ssa.Call); ok && nsCall.Call.StaticCallee() != nil && nsCall.Call.StaticCallee().Name() == "NewServer" {
-		if ir.IsExtractOf(ir.NormCell(nsCall.Call.Args[0]), assigner, 0) && ir.NormCell(wait.Call.Args[0]) == ssa.Value(start) {
+	// (Start returns its receiver: the server is the constructor's result or Start's)
+	var srvNew *ssa.Call
+	if nsCall, ok := ir.NormCell(start.Call.Args[0]).(*ssa.Call); ok && nsCall.Call.StaticCallee() != nil && nsCall.Call.StaticCallee().Name() == "NewServer" {
+		srvNew = nsCall
+		if w := ir.NormCell(wait.Call.Args[0]); ir.IsExtractOf(ir.NormCell(nsCall.Call.Args[0]), assigner, 0) && (w == ssa.Value(start) || w == ssa.Value(nsCall)) {
 			okSrv = true
 		}
 	}
@@ -1391,8 +1424,14 @@ func ruleLoop(c *chk.Ctx) {
 		gc := classifyOne(c, g)
 		stops := false
 		ir.Calls(b, func(ci ssa.CallInstruction) {
-			if ci.Common().StaticCallee() != nil && ci.Common().StaticCallee().Name() == "Stop" && ir.NormCell(ci.Common().Args[0]) == ssa.Value(start) {
-				stops = true
+			if ci.Common().StaticCallee() != nil && ci.Common().StaticCallee().Name() == "Stop" {
+				if r := ir.NormCell(ci.Common().Args[0]); r == ssa.Value(start) || (srvNew != nil && r == ssa.Value(srvNew)) {
+					stops = true
+				}
+				// (the server handed to the watcher as a parameter)
+				if r := c.P.Canon(ci.Common().Args[0]); r == ssa.Value(start) || (srvNew != nil && r == ssa.Value(srvNew)) {
+					stops = true
+				}
 			}
 		})
 		if gc.kind == "watcher" && stops {
@@ -1762,12 +1801,33 @@ type respRecv struct {
 	v ssa.Value
 }
 
+// isRespStruct: the record the HTTP client channel passes from its sending goroutine
+// to Recv — a struct (whatever it is called) holding the *http.Response.
+func isRespStruct(t types.Type) bool {
+	st, ok := t.Underlying().(*types.Struct)
+	if !ok {
+		return false
+	}
+	for i := 0; i < st.NumFields(); i++ {
+		if st.Field(i).Type().String() == "*net/http.Response" {
+			return true
+		}
+	}
+	return false
+}
+
+// isRespChan: a channel of such records.
+func isRespChan(t types.Type) bool {
+	ch, ok := t.Underlying().(*types.Chan)
+	return ok && isRespStruct(ch.Elem())
+}
+
 func responseReceives(c *chk.Ctx) []respRecv {
 	var out []respRecv
 	for _, f := range pkgFuncs(c, c.M.JhttpPkg) {
 		var recv *ssa.UnOp
 		ir.Instrs(f, func(ins ssa.Instruction) {
-			if u, ok := ins.(*ssa.UnOp); ok && u.Op == token.ARROW && strings.HasSuffix(u.X.Type().String(), "jhttp.response") {
+			if u, ok := ins.(*ssa.UnOp); ok && u.Op == token.ARROW && isRespChan(u.X.Type()) {
 				recv = u
 			}
 		})
@@ -1775,7 +1835,7 @@ func responseReceives(c *chk.Ctx) []respRecv {
 			continue
 		}
 		// accessor: every return hands back exactly the received pieces, nothing else happens
-		accessor := f.Signature.Results().Len() >= 1 && strings.HasSuffix(f.Signature.Results().At(0).Type().String(), "jhttp.response") && !ir.Exported(f)
+		accessor := f.Signature.Results().Len() >= 1 && isRespStruct(f.Signature.Results().At(0).Type()) && !ir.Exported(f)
 		calls := 0
 		ir.Calls(f, func(ssa.CallInstruction) { calls++ })
 		if calls > 0 {
